@@ -362,7 +362,9 @@ func cmdCheck(args []string) int {
 			}
 			cmd := exec.Command(self, a...)
 			cmd.Stderr = os.Stderr
-			cmd.Env = append(os.Environ(), "GOMAXPROCS="+workerProcs())
+			// the process-local time zone is part of the environment the simulator owns: a
+			// third of the workers run in UTC, the others east and west of it
+			cmd.Env = append(os.Environ(), "GOMAXPROCS="+workerProcs(), "TZ="+[]string{"UTC", "Asia/Kolkata", "America/New_York"}[w%3])
 			out, err := cmd.Output()
 			r := result{err: err, w: w}
 			sc := bufio.NewScanner(strings.NewReader(string(out)))
